@@ -419,7 +419,9 @@ def main(ck):
                      # parse watchdog: generous, so that it can only fire on a real hang (a parse takes milliseconds; the
                      # parser's own no-progress guard is count-based), never because the machine is loaded.  The run budget is
                      # short: a mutant that loops forever is counted, not reported.
-                     "budget_ms": max(30000, 2000 * kb), "run_budget_ms": 2000,
+                     # (capped: the slowest 4 MB input of the unchanged tree parses in 8 s idle; an uncapped 2 s/KiB would let a
+                     # quadratic regression on one long line run for hours instead of being reported)
+                     "budget_ms": min(max(30000, 2000 * kb), 120000), "run_budget_ms": 2000,
                      # sources too long for the lexer tie do not need their token list back (the engine reports the
                      # token count and the bracket-balance verdict itself): keeps the thorough tier's memory bounded
                      "maxtoks": 1 if len(c["hex"]) > 8000 else 0})
@@ -437,6 +439,8 @@ def main(ck):
     retried = 0
     for i, o in enumerate(outs):
         if o.get("parse") == "timeout":
+            if retried >= 4:
+                continue          # four confirmed hangs are enough; the others are reported as they are
             retried += 1
             again = lexrun.run(binary, [reqs[i]], nproc=1)
             if again and again[0].get("parse") != "timeout" and not again[0].get("dead"):
